@@ -264,10 +264,19 @@ func genFlushCase(r *rand.Rand, cfg Cfg, big bool) Case {
 			}
 		}
 		// a few failing attempts, then a clean one
-		for a := 0; a < r.Intn(3); a++ {
+		attempts := r.Intn(3)
+		if big && cyc == 0 && attempts == 0 {
+			attempts = 1
+		}
+		for a := 0; a < attempts; a++ {
 			var fs []string
 			for j := 0; j < 1+r.Intn(2); j++ {
 				fs = append(fs, strconv.Itoa(r.Intn(2+len(live)/2)))
+			}
+			if big && cyc == 0 && a == 0 {
+				// a failure among the very first writes of a flush of a hundred nodes or more: dozens
+				// of successful writes follow it (every pool slot is used again afterwards)
+				fs = []string{strconv.Itoa(r.Intn(5))}
 			}
 			ops = append(ops, fmt.Sprintf("flush 0 %d %d %s", nroot, r.Int63n(1<<30), strings.Join(fs, ",")), "iter 0", "stat 0")
 			nroot++
